@@ -554,7 +554,6 @@ func NewApp(
 		slashingtypes.ModuleName,
 		govtypes.ModuleName,
 		enttypes.ModuleName,
-		crisistypes.ModuleName,
 		ibcexported.ModuleName,
 		genutiltypes.ModuleName,
 		evidencetypes.ModuleName,
@@ -570,6 +569,10 @@ func NewApp(
 		beacontypes.ModuleName,
 		wrkchaintypes.ModuleName,
 		streamtypes.ModuleName,
+		// NOTE: crisis asserts every registered invariant during InitGenesis, so it must run after
+		// all modules whose state the invariants read (the stream invariant compares the stream
+		// escrow balance with the streams, which do not exist before the stream module's genesis).
+		crisistypes.ModuleName,
 	}
 
 	app.ModuleManager.SetOrderInitGenesis(genesisModuleOrder...)
